@@ -208,8 +208,10 @@ def run(ctx):
             raise AnalysisError(f"get_big_edges_df: column '{name}' not found - re-bind the anchor")
         rules.decide_equal(ctx, "FORM", f"{bd.qualname} / FORM / column '{name}'", ctx.where(bd), got_b[name], want, f"column '{name}'")
     c2 = got_b.get("cell2")
-    lb = ("bv", c2[2]) if c2 is not None and c2[0] == "loopres" else b0
-    ok2 = c2 is not None and any(y in (T.idx(T.attr(T.idx(lb, T.num(1)), "own_cells"), T.num(1)), T.idx(T.attr(lb, "own_cells"), T.num(1))) for y in T.subterms(c2))
+    # the second own cell of the interface the row stands for: own_cells[1] of the loop element, however the "or -1" is spelled
+    # (try / except IndexError around the append, or a length test in a conditional expression)
+    ok2 = c2 is not None and any(y[0] == "idx" and y[2] == T.num(1) and y[1][0] == "attr" and y[1][2] == "own_cells" and
+                                 any(z[0] == "bv" for z in T.subterms(y[1][1])) for y in T.subterms(c2))
     ctx.check(ok2, "FORM", f"{bd.qualname} / FORM / column 'cell2' = second own cell (or -1)", ctx.where(bd), "own_cells[1]", "column 'cell2' is not the interface's second cell")
 
     # returned bins_centers == selection centres
